@@ -452,6 +452,7 @@ func main() {
 	var rcs []rcaseJSON
 	var fcs []fcaseJSON
 	var ecs []ecaseJSON
+	var pcs []pcaseJSON
 
 	if *replay != "" {
 		data, err := os.ReadFile(*replay)
@@ -475,6 +476,10 @@ func main() {
 			var c ecaseJSON
 			json.Unmarshal(data, &c)
 			ecs = append(ecs, c)
+		case "inprocess":
+			var c ecaseJSON
+			json.Unmarshal(data, &c)
+			pcs = append(pcs, pcaseJSON{"inprocess", c.Source, c.LogHTTP, c.UpstreamDown, c.Seed})
 		default:
 			fmt.Println("replay: unknown kind", k.Kind)
 			os.Exit(3)
@@ -491,6 +496,7 @@ func main() {
 			fcs = append(fcs, genDescribeCase(r))
 		}
 		ecs = binaryPlan(r, thorough)
+		pcs = inprocessPlan(r, thorough)
 	}
 
 	var rc []string
@@ -522,19 +528,34 @@ func main() {
 	// the flag table as the real command has it: which flags print a placeholder for a probe secret
 	m.FlagTable = observeFlagTable()
 
+	var ec []string
+	var ej []any
 	if len(ecs) > 0 {
 		if *bin == "" {
 			m.Notes = append(m.Notes, "no -bin given: binary cases skipped")
 		} else {
-			ec, ej, reports := runBinaryCases(*bin, *out, ecs)
+			var reports []runReport
+			ec, ej, reports = runBinaryCases(*bin, *out, ecs)
 			m.Runs = reports
 			m.Counts["binary"] = len(ec)
 			for _, c := range ecs {
 				m.Dist["binary_"+c.Class+"_"+c.Source+"_"+c.Level+"_"+c.LogHTTP]++
 			}
-			m.Shards = append(m.Shards, writeShards(*out, "ecases", "ecase", "ecase_model_ok", "ecase_prop_ok", ec)...)
-			writeJSONL(*out, "ecases.jsonl", ej)
 		}
+	}
+	if len(pcs) > 0 {
+		pc, pj, reports := runInprocessCases(*out, pcs)
+		ec = append(ec, pc...)
+		ej = append(ej, pj...)
+		m.Runs = append(m.Runs, reports...)
+		m.Counts["inprocess_faults"] = len(pc)
+		for _, c := range pcs {
+			m.Dist["inprocess_"+c.Via+"_"+c.Mode]++
+		}
+	}
+	if len(ec) > 0 {
+		m.Shards = append(m.Shards, writeShards(*out, "ecases", "ecase", "ecase_model_ok", "ecase_prop_ok", ec)...)
+		writeJSONL(*out, "ecases.jsonl", ej)
 	}
 	if len(rj) > 0 {
 		m.Samples = append(m.Samples, rj[len(rj)/2])
